@@ -327,7 +327,13 @@ class Ctx:
         self.notes = []
         self._distinct = set()
         kf = os.path.join(VERIF, "known_findings.json")
-        self.known_findings = json.load(open(kf)) if os.path.exists(kf) else []
+        self.known_findings = []
+        if os.path.exists(kf):
+            # several writers edit this file while checks are built in
+            # parallel: read under the same lock and ignore trailing garbage
+            with Lock("known"):
+                txt = open(kf).read()
+            self.known_findings, _ = json.JSONDecoder().raw_decode(txt)
         self._nrep = 0
         self._seen = set()
 
